@@ -5,6 +5,7 @@
    (no unsafe/reflect import, no reader takes buf.Bytes()/buf.Next()) tie the Go readers to the copying programs. -/
 import FinProto.Obl.SNoOpaque
 import FinProto.Props.AliasProofs
+import FinProto.GenLock
 namespace FinProto.Obl
 open FinProto FinProto.Alias
 
@@ -12,6 +13,16 @@ theorem C16_readString_copying (len : Nat) : (progReadString len).copying = true
 theorem C16_readFixed_copying (n a b : Nat) : (progReadFixedStringTrimPadding n a b).copying = true :=
   progReadFixedStringTrimPadding_copying n a b
 theorem C16_readBasic_copying (w : Nat) : (progReadBasicType w).copying = true := progReadBasicType_copying w
+/-- every reader primitive of codec/binary_codec.go, as REGENERATED from the source, is a copying program -/
+theorem C16_readers_copying : Gen.readerProgs.all Alias.Prog.copying = true := by decide
+
+/-- hence whatever a reader returns lives in memory allocated during the call, and no later overwrite, reset or reuse
+    of the source buffer's backing array (`f` arbitrary) changes what it denotes -/
+theorem C16_readers_immune {p : Alias.Prog} (hp : p ∈ Gen.readerProgs) {s s' : Alias.State} {r : Alias.Ref}
+    (hs : s.Initial) (hrun : Alias.run p s = some (r, s')) (f : List UInt8 → List UInt8) :
+    Alias.observe (Alias.scribble s'.mem s.bufRegion f) r = Alias.observe s'.mem r :=
+  decode_immune (List.all_eq_true.mp C16_readers_copying p hp) hs hrun f
+
 theorem C16_no_unrecognised_statement : Gen.env.noOpaque = true := gen_noOpaque
 
 end FinProto.Obl
